@@ -67,7 +67,7 @@ type Tree struct {
 
 // Shapes in generation order; the first len(shapes) trees of a run are one of
 // each, the rest are drawn at random.
-var shapes = []string{"siblings", "same-file-twice", "diamond", "nested-siblings", "flatten-siblings", "chain", "mixed", "diamond-deep"}
+var shapes = []string{"siblings", "same-file-twice", "diamond", "nested-siblings", "flatten-siblings", "chain", "mixed", "diamond-deep", "two-depths", "many-namespaces"}
 
 type tgen struct {
 	r    *rand.Rand
@@ -272,7 +272,7 @@ func (g *tgen) names(i int, depth int) []string {
 // FaultKinds are the ways the common file of a fault diamond is broken.
 var FaultKinds = []string{"missing", "version", "no-version", "cycle", "flatten-conflict"}
 
-// plan is the sequence of shapes of a run: three rounds of the eight clash
+// plan is the sequence of shapes of a run: three rounds of the ten clash
 // shapes, two dotenv trees, one fault diamond per fault kind and two more with
 // a missing required include. Longer runs repeat it.
 var plan = func() []string {
@@ -378,6 +378,29 @@ func GenTree(r *rand.Rand, idx int) *Tree {
 		inc.Mapping = true
 		if inc.Dir == "" && len(inc.Vars) == 0 {
 			inc.Dir = "./wd0"
+		}
+	case "two-depths":
+		// one file reached at two depths (root -> common, root -> svc -> common) that has an include of its own
+		// (common -> os): every merge order must deliver svc:common:os:*
+		svc, common, osf := g.addFile(false), g.addFile(false), g.addFile(false)
+		if r.Intn(2) == 0 {
+			g.link(root, common, false)
+			g.link(root, svc, false)
+		} else {
+			g.link(root, svc, false)
+			g.link(root, common, false)
+		}
+		g.link(svc, common, false)
+		g.link(common, osf, false)
+		if r.Intn(2) == 0 {
+			g.link(svc, g.addFile(false), false)
+		}
+	case "many-namespaces":
+		// one file included under many namespaces by the same parent (its include goroutines finish together)
+		x := g.addFile(false)
+		n := 12 + r.Intn(13)
+		for j := 0; j < n; j++ {
+			g.link(root, x, false)
 		}
 	case "nested-siblings":
 		a := g.addFile(false)
